@@ -1,7 +1,7 @@
 #include "CppUTest/TestHarness.h"
 #include "CppUTest/TeamCityTestOutput.h"
 
-TeamCityTestOutput::TeamCityTestOutput() : currtest_(NULLPTR), currGroup_()
+TeamCityTestOutput::TeamCityTestOutput() : currtest_(NULLPTR), currGroup_(), groupStarted_(false)
 {
 }
 
@@ -37,6 +37,7 @@ void TeamCityTestOutput::printCurrentTestEnded(const TestResult& res)
 void TeamCityTestOutput::printCurrentGroupStarted(const UtestShell& test)
 {
     currGroup_ = test.getGroup();
+    groupStarted_ = true;
     print("##teamcity[testSuiteStarted name='");
     printEscaped(currGroup_.asCharString());
     print("']\n");
@@ -44,7 +45,7 @@ void TeamCityTestOutput::printCurrentGroupStarted(const UtestShell& test)
 
 void TeamCityTestOutput::printCurrentGroupEnded(const TestResult& /*res*/)
 {
-    if (currGroup_ == "")
+    if (!groupStarted_)
         return;
 
     print("##teamcity[testSuiteFinished name='");
